@@ -77,6 +77,10 @@ type GenSchema struct {
 	// nil or left a source out: the builder must then fail the request (function.go / batch.go), which the
 	// oracle accepts as the one legitimate execution error.
 	NonNullNil int32
+	// OmitMarshalers: batch funcs may leave out entries also when the result is a text marshaler value
+	// (thunder's unwrapper for text marshalers panics on the missing value, on an executor goroutine:
+	// known finding until C14-fix-3 is in the tree; off by default).
+	OmitMarshalers bool
 }
 
 // PRow is a keyed static struct for paginated fields.
@@ -177,8 +181,10 @@ var (
 type xArgs struct{ X int64 }
 
 // NewGenSchema builds a random schema from r.
-func NewGenSchema(r *vh.Rng) *GenSchema {
-	g := &GenSchema{Builder: schemabuilder.NewSchema(), ArgSamples: map[string][]string{}, Shapes: map[string]int{}, rng: r}
+func NewGenSchema(r *vh.Rng) *GenSchema { return NewGenSchemaOpt(r, false) }
+
+func NewGenSchemaOpt(r *vh.Rng, omitMarshalers bool) *GenSchema {
+	g := &GenSchema{OmitMarshalers: omitMarshalers, Builder: schemabuilder.NewSchema(), ArgSamples: map[string][]string{}, Shapes: map[string]int{}, rng: r}
 	s := g.Builder
 	s.Enum(Shade(0), map[string]Shade{"LIGHT": Shade(0), "MID": Shade(1), "DARK": Shade(2)})
 
@@ -360,13 +366,22 @@ func (g *GenSchema) addFuncTo(r *vh.Rng, o *schemabuilder.Object, owner, name st
 		opts = append(opts, schemabuilder.Expensive)
 		form += "+expensive"
 	}
-	nonNullable := ret.Kind() == reflect.Ptr && r.Chance(25)
+	isBatch := hasSrc && r.Chance(35)
+	if isBatch && ret.Kind() != reflect.Ptr && ret.Kind() != reflect.Slice && r.Chance(50) {
+		ret = reflect.PtrTo(ret) // batch results are mostly pointers in practice
+		out[0] = ret
+	}
+	nnPct := 25
+	if isBatch {
+		nnPct = 60
+	}
+	nonNullable := ret.Kind() == reflect.Ptr && r.Chance(nnPct)
 	if nonNullable {
 		opts = append(opts, schemabuilder.NonNullable)
 		form += "+nonnullable"
 	}
 	seed := r.U64()
-	if hasSrc && r.Chance(30) {
+	if isBatch {
 		g.addBatch(r, o, owner, name, src, ret, in, out, opts, nonNullable, seed, form)
 		return
 	}
@@ -389,7 +404,7 @@ func (g *GenSchema) nnValue(r *vh.Rng, t reflect.Type, nonNullable bool) reflect
 	if !nonNullable {
 		return g.value(r, t)
 	}
-	if r.Chance(12) {
+	if r.Chance(20) {
 		atomic.StoreInt32(&g.NonNullNil, 1)
 		return reflect.Zero(t)
 	}
@@ -429,7 +444,7 @@ func (g *GenSchema) addBatch(r *vh.Rng, o *schemabuilder.Object, owner, name str
 			}
 		}
 		for _, k := range keys {
-			if rr.Chance(4) { // an entry left out
+			if rr.Chance(4) && (g.OmitMarshalers || !isTextMarshaler(ret)) { // an entry left out
 				if nonNullable {
 					atomic.StoreInt32(&g.NonNullNil, 1)
 				}
@@ -463,6 +478,13 @@ func (g *GenSchema) addBatch(r *vh.Rng, o *schemabuilder.Object, owner, name str
 	}
 	g.Shapes["func-ret:"+shapeOf(ret)]++
 	g.Shapes["func-form:"+form]++
+}
+
+func isTextMarshaler(t reflect.Type) bool {
+	for t.Kind() == reflect.Ptr {
+		t = t.Elem()
+	}
+	return t == reflect.TypeOf(Stamp{})
 }
 
 // addPaginated registers a Paginated FieldFunc returning a slice of a keyed struct, with filter and sort fields.
